@@ -687,6 +687,11 @@ def builtin_call(self, st, name, args, kwargs, node=None):
     if name == "dict":
         if not a:
             return [(OK, st, ListVal([]))]
+        if len(a) == 1 and isinstance(a[0], Val) and isinstance(a[0].ty, MapT):
+            return [(OK, st, Val(a[0].term, a[0].ty.plain()))]         # a copy: maps are values here
+        if len(a) == 1 and isinstance(a[0], Val) and isinstance(a[0].ty, Opt) and isinstance(a[0].ty.inner, MapT):
+            self.implicit(st, a[0].ty.is_some(a[0].term), "TypeError", "dict(None)")
+            return [(OK, st, Val(a[0].ty.val(a[0].term), a[0].ty.inner.plain()))]
         raise Unsupported("dict(...)")
     if name == "time" or name == "time.time":
         return [(OK, st, self.now(st))]
@@ -722,6 +727,9 @@ def builtin_call(self, st, name, args, kwargs, node=None):
         st.assume(z3.Length(r) == z3.If(n > 0, n, 0))
         st.assume(z3.ForAll([k], z3.Implies(z3.And(k >= 0, k < z3.Length(r)), r[k] == k)))
         return [(OK, st, Val(r, SeqT(INT)))]
+    if name == "range" and len(a) in (2, 3) and all(isinstance(x, Val) and x.ty == INT for x in a):
+        from .values import RangeVal
+        return [(OK, st, RangeVal(a[0].term, a[1].term, a[2].term if len(a) == 3 else z3.IntVal(1)))]
     if name == "next":
         return self.do_next(st, a[0], a[1] if len(a) > 1 else None)
     if name == "getattr" and len(a) >= 2 and isinstance(a[1], Val) and a[1].template is not None:
@@ -985,6 +993,15 @@ def value_method(self, st, recv, name, args, kwargs, lv):
             return [(OK, st, t)]
         if name == "copy":
             return [(OK, st, Val(recv.term, ty.plain()))]
+        if name == "update" and len(a) == 1 and isinstance(a[0], Val):
+            other = a[0]
+            view = getattr(self.reg, "dict_views", {}).get(getattr(other.ty, "name", None))
+            if view is not None:
+                other = view(other)          # an opaque value known to be a dict: its mapping view
+            if isinstance(other.ty, MapT) and other.ty.key == ty.key and other.ty.val == ty.val:
+                st.assume(ops.map_override_axiom(ty))
+                store(ops.map_override(recv.term, other.term, ty))
+                return [(OK, st, NONE)]
         raise Unsupported(f"dict.{name}")
 
     if isinstance(ty, SeqT):
@@ -996,7 +1013,14 @@ def value_method(self, st, recv, name, args, kwargs, lv):
             store(z3.Concat(z3.Unit(coerce(a[0], ty.elem).term), recv.term))
             return [(OK, st, NONE)]
         if name == "extend":
-            store(z3.Concat(recv.term, coerce(a[0], ty).term))
+            other = coerce(a[0], ty).term
+            if getattr(self.reg, "seq_pointwise_hints", False):
+                nw = z3.Const(fresh_name("ext"), ty.sort())
+                st.assume(nw == z3.Concat(recv.term, other))
+                ops.concat_hints(st, nw, recv.term, other)
+                store(nw)
+            else:
+                store(z3.Concat(recv.term, other))
             return [(OK, st, NONE)]
         if name == "popleft" or (name == "pop" and a and _const_int(a[0]) == 0):
             self.implicit(st, n > 0, "IndexError", "pop from empty")
